@@ -94,8 +94,110 @@ theorem C02_times (ds : Dataset) (hwf : WFData ds) (p : Params) (hmw : 0 ≤ p.m
   have hsub := connSetOf_rev_sub ds (ds.scenarioOf p)
   have hm : ArrMono (ds.connSetOf (ds.scenarioOf p)).rev :=
     fun x hx y hy => conns_arrMono hwf.toWFSchedule x (hsub x hx) y (hsub y hy)
-  obtain ⟨depT, arrT, bd, j, rfl, _, h0, h1, h2⟩ := calculateSingleWith_emits _ _ p _ _ (connSetOf_sorted ds _) hm hmw
+  obtain ⟨depT, arrT, bd, j, rfl, _, h0, h1, h2, _, _, _⟩ := calculateSingleWith_emits _ _ p _ _ (connSetOf_sorted ds _) hm hmw
     (fun depT arrT => cleanupPreserves (timeWF_dataset hwf p hmw hmt _ _ _ depT arrT) (sliceOK_dataset hwf p _ _ _ depT arrT)) h
   exact ⟨h0, h1, h2⟩
+
+theorem finalArrival_last (egr : JStep) : ∀ (legs : List JStep) (l : JStep) (x : Conn),
+    legs.getLast? = some l → l.exit = some x → finalArrival legs egr = x.arr + egr.walk := by
+  intro legs
+  induction legs with
+  | nil => intro l x h; simp at h
+  | cons a rest ih =>
+    intro l x hl hx
+    cases rest with
+    | nil => simp at hl; subst hl; simp [finalArrival, hx]
+    | cons b r =>
+      rw [List.getLast?_cons_cons] at hl
+      simp only [finalArrival]
+      exact ih l x hl hx
+
+theorem emit_arrival (ds : Dataset) (mw bd : Int) (acc egr : JStep) (legs : List JStep) (hacc : acc.enter = none)
+    (hegr : egr.enter = none) (hne : legs ≠ []) (hall : AllLegs legs) :
+    (emit ds mw bd ([acc] ++ legs ++ [egr])).arrivalTime = finalArrival legs egr := by
+  obtain ⟨l1, rest, rfl⟩ : ∃ l1 rest, legs = l1 :: rest := by
+    cases legs with
+    | nil => exact absurd rfl hne
+    | cons a b => exact ⟨a, b, rfl⟩
+  have hn : ([acc] ++ (l1 :: rest) ++ [egr]).length = (l1 :: rest).length + 2 := by simp
+  have hloop : emitLoop ds mw bd ([acc] ++ (l1 :: rest) ++ [egr]).length ([acc] ++ (l1 :: rest) ++ [egr]) 0 {}
+      = emitLoop ds mw bd ([acc] ++ (l1 :: rest) ++ [egr]).length ((l1 :: rest) ++ [egr]) 1
+          (emitAccess mw bd {} acc (some l1)) := by
+    simp [emitLoop, emitStep, hacc]
+  obtain ⟨_, harr, _⟩ := emitLoop_from1 ds mw bd _ egr hegr (l1 :: rest) (emitAccess mw bd {} acc (some l1)) hne hall hn
+  simp only [emit, hloop, harr]
+
+theorem routerLookup_nodup (tab : List NTD) (m : Int) (h : (tab.map (·.stop)).Nodup) :
+    ((routerLookup tab m).map (·.stop)).Nodup :=
+  List.Nodup.sublist (List.Sublist.map _ List.filter_sublist) h
+
+/-- **C02 (arrival clauses).** When the walking router lists every stop at most once around the
+    destination: an arrival-time query never arrives after the requested time, and a departure-time
+    query arrives within max_travel_time of the requested departure. -/
+theorem C02_arrival (ds : Dataset) (hwf : WFData ds) (p : Params) (hmw : 0 ≤ p.minWait) (hmt : 0 ≤ p.maxTransfer)
+    (hnd : (ds.egress.map (·.stop)).Nodup) {r : Route} (h : calculateSingle ds p = .ok r) :
+    (p.forward = false → r.arrivalTime ≤ p.time) ∧ (p.forward = true → r.arrivalTime - p.time ≤ p.maxTotal) := by
+  have hsub := connSetOf_rev_sub ds (ds.scenarioOf p)
+  have hm : ArrMono (ds.connSetOf (ds.scenarioOf p)).rev :=
+    fun x hx y hy => conns_arrMono hwf.toWFSchedule x (hsub x hx) y (hsub y hy)
+  obtain ⟨depT, arrT, bd, j, rfl, hJ, _, _, _, hA, hB, _⟩ := calculateSingleWith_emits _ _ p _ _ (connSetOf_sorted ds _) hm hmw
+    (fun depT arrT => cleanupPreserves (timeWF_dataset hwf p hmw hmt _ _ _ depT arrT) (sliceOK_dataset hwf p _ _ _ depT arrT)) h
+  obtain ⟨acc, legs, egr, rfl, hacc, hegr, hne, hok, _, hlast⟩ := hJ
+  rw [emit_arrival _ _ _ acc egr legs hacc hegr hne hok.allLegs]
+  obtain ⟨l, hl⟩ : ∃ l, legs.getLast? = some l := by
+    cases hg : legs.getLast? with
+    | none => simp at hg; exact absurd hg hne
+    | some l => exact ⟨l, rfl⟩
+  obtain ⟨e, x, _, hx⟩ := hok.allLegs l (List.mem_of_getLast? hl)
+  rw [finalArrival_last egr legs l x hl hx]
+  have hle : x.arr + egr.walk ≤ arrT := (hlast l x hl hx).2 (routerLookup_nodup _ _ hnd)
+  constructor
+  · intro hf; rw [← hA hf]; exact hle
+  · intro hf; have := hB hf; omega
+
+/-- **C02 (first-waiting cap).** For a departure-time query the route starts with the access walk
+    followed by a boarding whose departure, counted from the moment the traveller can stand at that
+    stop (requested departure + access walk), is within max_first_waiting_time - unless the cap is
+    smaller than the minimum waiting time in force for that trip, which no boarding could satisfy
+    (the code lets such a boarding through; DESIGN 0.5). -/
+theorem C02_first_wait (ds : Dataset) (hwf : WFData ds) (p : Params) (hmw : 0 ≤ p.minWait) (hmt : 0 ≤ p.maxTransfer)
+    {r : Route} (h : calculateSingle ds p = .ok r) (hf : p.forward = true) (hd : p.time ≠ -1) :
+    ∃ w d t0 t1 t2 trip seq stop dep wait rest,
+      r.steps = .walk 0 w d t0 t1 t2 :: .board trip seq stop dep wait :: rest ∧
+      (p.maxFirstWait < ds.mwOfTrip p trip ∨ dep - p.time - w ≤ p.maxFirstWait) := by
+  have hsub := connSetOf_rev_sub ds (ds.scenarioOf p)
+  have hm : ArrMono (ds.connSetOf (ds.scenarioOf p)).rev :=
+    fun x hx y hy => conns_arrMono hwf.toWFSchedule x (hsub x hx) y (hsub y hy)
+  -- the forward branch, with the context it runs in
+  have key : ∃ arrT bd j, r = emit (ds.restrict (ds.connSetOf (ds.scenarioOf p))) p.minWait bd j ∧
+      JourneyOK (mkCtx (ds.restrict (ds.connSetOf (ds.scenarioOf p))) p (ds.connSetOf (ds.scenarioOf p))
+        (routerLookup ds.access p.maxAccess) (routerLookup ds.egress p.maxEgress) p.time arrT) (ds.connSetOf (ds.scenarioOf p)).rev bd j := by
+    obtain ⟨depT, arrT, bd, j, h1, hJ, _, _, _, _, _, hD⟩ := calculateSingleWith_emits _ _ p _ _ (connSetOf_sorted ds _) hm hmw
+      (fun depT arrT => cleanupPreserves (timeWF_dataset hwf p hmw hmt _ _ _ depT arrT) (sliceOK_dataset hwf p _ _ _ depT arrT)) h
+    have hD' := hD hf
+    subst hD'
+    exact ⟨arrT, bd, j, h1, hJ⟩
+  obtain ⟨arrT, bd, j, rfl, hJ⟩ := key
+  obtain ⟨acc, legs, egr, rfl, hacc, hegr, hne, hok, hfirst, _⟩ := hJ
+  obtain ⟨hsteps, _⟩ := emit_steps (ds.restrict (ds.connSetOf (ds.scenarioOf p))) p.minWait bd acc egr legs hacc hegr hne hok.allLegs
+  obtain ⟨l1, rest, rfl⟩ : ∃ l1 rest, legs = l1 :: rest := by
+    cases legs with
+    | nil => exact absurd rfl hne
+    | cons a b => exact ⟨a, b, rfl⟩
+  obtain ⟨e1, x1, he1, hx1⟩ := hok.allLegs l1 (List.mem_cons_self ..)
+  have hhead := stepsOfLegs_head (ds.restrict (ds.connSetOf (ds.scenarioOf p))) p.minWait egr l1 rest (bd + acc.walk) e1 x1 he1 hx1
+  obtain ⟨_, _, hfw⟩ := hfirst e1 (by simp [he1])
+  have hcap := hfw hd
+  have hmem : e1 ∈ (ds.connSetOf (ds.scenarioOf p)).rev := hok.mem_enter l1 (List.mem_cons_self ..) e1 he1
+  have hmwe : e1.effWait p.minWait = ds.mwOfTrip p e1.trip := conns_effWait hwf.toWFSchedule p e1 (hsub e1 hmem)
+  cases hS : stepsOfLegs (ds.restrict (ds.connSetOf (ds.scenarioOf p))) p.minWait (bd + acc.walk) (l1 :: rest) egr with
+  | nil => rw [hS] at hhead; simp at hhead
+  | cons b tl =>
+    rw [hS] at hhead hsteps
+    simp only [List.head?_cons, Option.some.injEq] at hhead
+    subst hhead
+    refine ⟨acc.walk, acc.dist, _, _, _, e1.trip, e1.seq, e1.depStop, e1.dep, _, tl, hsteps, ?_⟩
+    rw [← hmwe]
+    exact hcap
 
 end Tr
